@@ -8,6 +8,9 @@ import (
 	"path/filepath"
 	"strconv"
 	"strings"
+	"sync"
+	"syscall"
+	"time"
 	"unicode"
 
 	"limeverif/internal/codec"
@@ -94,6 +97,7 @@ var replacements = []codec.Tree{
 	{"o", []interface{}{[]interface{}{"type", codec.Tree{"s", "/"}}}},
 	{"s", "/"}, {"s", "/+"}, {"s", "text/plain"}, {"s", "application/vnd.lime.container+json"},
 	{"s", "application/vnd.lime.collection+json"}, {"n", "9223372036854775808"},
+	{"n", "4611686018427387904"}, {"n", "1000000000000000000"}, {"n", "-9223372036854775808"}, {"n", "2147483648"},
 }
 
 const (
@@ -205,67 +209,175 @@ var handSeeds = []struct{ kind, wire string }{
 	{"session", `{"id":"s1","state":"finished"}`},
 }
 
-// decodeCase decodes one wire form through the typed decoder of `kind` and through the receive
-// path, on implementation and model; evaluates "no panic" and "accepted ⇒ re-encodes to something
-// that decodes to an equal envelope" on the implementation.
-func decodeCase(e *Env, kind string, t codec.Tree, origin string) error {
-	e.Rep.Eval()
-	wire := codec.TreeBytes(t)
+// c02Case is one wire form to decode; c02Impl is what the implementation did with it.
+type c02Case struct {
+	Kind   string `json:"kind"`
+	Wire   string `json:"wire"`
+	Origin string `json:"origin"`
+}
+
+type c02Route struct {
+	Obs      decObs      `json:"obs"`
+	Perr     string      `json:"perr,omitempty"`
+	Verdicts []hsVerdict `json:"-"`
+	VKeys    [][2]string `json:"verdicts,omitempty"` // (key, message) pairs of the impl oracle
+	Extra    string      `json:"reencoded,omitempty"`
+}
+
+type c02Impl struct {
+	Typed   c02Route `json:"typed"`
+	Receive c02Route `json:"receive"`
+}
+
+// implDecodeBoth runs the implementation part of a decode case: typed decoder and receive path,
+// and the oracle "accepted ⇒ re-encodes ⇒ decodes to an equal envelope" (runs in a child process).
+func implDecodeBoth(kind string, wire []byte) c02Impl {
+	var out c02Impl
 	for _, route := range []string{"typed", "receive"} {
 		var io decObs
 		var val *codec.VEnv
 		var perr string
-		k := kind
 		if route == "typed" {
 			io, val, perr = implDecodeTyped(kind, wire)
 		} else {
 			io, val, perr = implReceive(wire)
+		}
+		r := c02Route{Obs: io, Perr: perr}
+		add := func(k, m string) { r.VKeys = append(r.VKeys, [2]string{k, m}) }
+		switch io.R {
+		case "panic":
+			add(panicKey(perr, string(wire)), "decoding ("+route+") panics: "+perr)
+		case "ok":
+			if val == nil {
+				add("c02-uncanonical", "decoder accepted a value the harness cannot canonicalise: "+perr)
+				break
+			}
+			ie, bytes2, eerr := implEncode(val)
+			if ie.R != "ok" {
+				add(reencodeKey(eerr), "an accepted envelope cannot be encoded again ("+ie.R+"): "+eerr)
+				break
+			}
+			var io2 decObs
+			var perr2 string
+			if route == "typed" {
+				io2, _, perr2 = implDecodeTyped(val.Kind, bytes2)
+			} else {
+				io2, _, perr2 = implReceive(bytes2)
+			}
+			if io2.R != "ok" {
+				r.Extra = string(bytes2)
+				add(reencodeKey(perr2), "the re-encoding of an accepted envelope is rejected ("+io2.R+"): "+perr2)
+				break
+			}
+			a, _ := codec.CanonValueLoose(io.Env)
+			b, _ := codec.CanonValueLoose(io2.Env)
+			if a != b {
+				r.Extra = string(bytes2)
+				add("c02-reencode-differs", "re-encoding an accepted envelope and decoding it again gives a different envelope: "+a+" vs "+b)
+			}
+		}
+		if route == "typed" {
+			out.Typed = r
+		} else {
+			out.Receive = r
+		}
+	}
+	return out
+}
+
+// judgeDecode diffs the implementation's observation with the model and records the oracle verdicts.
+func judgeDecode(e *Env, c *c02Case, impl *c02Impl, crash string) error {
+	e.Rep.Eval()
+	t, err := codec.ParseTree([]byte(c.Wire))
+	if err != nil {
+		return err
+	}
+	if impl == nil {
+		e.Rep.Violate("impl", "c02-crash", "decoding kills the process: "+crash, c)
+		return nil
+	}
+	for _, route := range []string{"typed", "receive"} {
+		r := impl.Typed
+		k := c.Kind
+		if route == "receive" {
+			r = impl.Receive
 			k = "any"
 		}
-		e.Rep.Count("dec-" + route + "=" + io.R)
-		c := map[string]interface{}{"kind": kind, "wire": string(wire), "route": route, "origin": origin}
+		e.Rep.Count("dec-" + route + "=" + r.Obs.R)
+		cc := map[string]interface{}{"kind": c.Kind, "wire": c.Wire, "route": route, "origin": c.Origin}
 		if e.Drv != nil && !hugeNumber(t) {
 			mo, err := e.modelDec(k, t)
 			if err != nil {
 				return err
 			}
-			if ok, why := sameDec(io, mo); !ok {
-				c2 := map[string]interface{}{"kind": kind, "wire": string(wire), "route": route, "origin": origin, "impl": io, "model": mo, "impl_error": perr}
+			if ok, why := sameDec(r.Obs, mo); !ok {
+				c2 := map[string]interface{}{"kind": c.Kind, "wire": c.Wire, "route": route, "origin": c.Origin, "impl": r.Obs, "model": mo, "impl_error": r.Perr}
 				e.Rep.Violate("corr", "c02-dec-corr", "model and implementation decode ("+route+") differently: "+why, c2)
 			}
 		}
-		switch io.R {
-		case "panic":
-			e.Rep.Violate("impl", panicKey(perr, string(wire)), "decoding ("+route+") panics: "+perr, c)
-		case "ok":
-			e.Rep.Nontrivial(route + string(wire))
-			if val == nil {
-				e.Rep.Violate("impl", "c02-uncanonical", "decoder accepted a value the harness cannot canonicalise: "+perr, c)
-				continue
+		if r.Obs.R == "ok" {
+			e.Rep.Nontrivial(route + c.Wire)
+		}
+		for _, v := range r.VKeys {
+			if r.Extra != "" {
+				cc["reencoded"] = r.Extra
 			}
-			// accepted ⇒ re-encode ⇒ re-decode equal
-			ie, bytes2, eerr := implEncode(val)
-			if ie.R != "ok" {
-				e.Rep.Violate("impl", reencodeKey(eerr), "an accepted envelope cannot be encoded again ("+ie.R+"): "+eerr, c)
-				continue
+			e.Rep.Violate("impl", v[0], v[1], cc)
+		}
+	}
+	return nil
+}
+
+// runDecodeCases runs the cases on the implementation in child processes (a crafted input that
+// makes the decoder exhaust memory kills the process; the crashing input is then known) and judges.
+func runDecodeCases(e *Env, cases []*c02Case) error {
+	workers := 8
+	chunks := make([][]interface{}, workers)
+	for i, c := range cases {
+		chunks[i%workers] = append(chunks[i%workers], c)
+	}
+	type one struct {
+		c     *c02Case
+		impl  *c02Impl
+		crash string
+	}
+	var mu sync.Mutex
+	all := []one{}
+	var firstErr error
+	var wg sync.WaitGroup
+	for _, ch := range chunks {
+		if len(ch) == 0 {
+			continue
+		}
+		wg.Add(1)
+		go func(ch []interface{}) {
+			defer wg.Done()
+			rs, err := RunChild("c02child", ch, 60*time.Second)
+			mu.Lock()
+			defer mu.Unlock()
+			if err != nil && firstErr == nil {
+				firstErr = err
 			}
-			var io2 decObs
-			if route == "typed" {
-				io2, _, perr = implDecodeTyped(val.Kind, bytes2)
-			} else {
-				io2, _, perr = implReceive(bytes2)
+			for _, r := range rs {
+				var c c02Case
+				json.Unmarshal(r.Case, &c)
+				if r.Res == nil {
+					all = append(all, one{&c, nil, r.Crash})
+					continue
+				}
+				var im c02Impl
+				json.Unmarshal(r.Res, &im)
+				all = append(all, one{&c, &im, ""})
 			}
-			if io2.R != "ok" {
-				c["reencoded"] = string(bytes2)
-				e.Rep.Violate("impl", reencodeKey(perr), "the re-encoding of an accepted envelope is rejected ("+io2.R+"): "+perr, c)
-				continue
-			}
-			a, _ := codec.CanonValueLoose(io.Env)
-			b, _ := codec.CanonValueLoose(io2.Env)
-			if a != b {
-				c["reencoded"] = string(bytes2)
-				e.Rep.Violate("impl", "c02-reencode-differs", "re-encoding an accepted envelope and decoding it again gives a different envelope: "+a+" vs "+b, c)
-			}
+		}(ch)
+	}
+	wg.Wait()
+	if firstErr != nil {
+		return firstErr
+	}
+	for _, o := range all {
+		if err := judgeDecode(e, o.c, o.impl, o.crash); err != nil {
+			return err
 		}
 	}
 	return nil
@@ -337,25 +449,39 @@ func c02Seeds(e *Env) ([]string, []codec.Tree) {
 }
 
 func init() {
+	Register("c02child", func(e *Env) error {
+		// cap the address space so that a decoder that tries to allocate an absurd amount dies at
+		// once with "out of memory" instead of dragging the machine down
+		var lim syscall.Rlimit
+		lim.Cur, lim.Max = 6<<30, 6<<30
+		syscall.Setrlimit(syscall.RLIMIT_AS, &lim)
+		ReadChildCases(func(n int, raw json.RawMessage) {
+			var c c02Case
+			if err := json.Unmarshal(raw, &c); err != nil {
+				return
+			}
+			ChildBegin(n, &c)
+			ChildEnd(n, implDecodeBoth(c.Kind, []byte(c.Wire)))
+		})
+		return nil
+	})
 	Register("c02", func(e *Env) error {
-		e.Rep.Rule = "malformed stream: for ~44 seed encodings (hand-written ones reaching every decoder branch + generated ones) every single-point structural mutation at every node (delete member, replace by null / each wrong JSON type / degenerate media types / out-of-range numbers, alien member, duplicate key, key case change, sub-tree swap) and sampled double-point mutations (every double in thorough) go through the real typed decoders and the real TCP receive path and through the model; outcome class and accepted value are diffed; impl oracle = no panic and accepted => re-encodes => decodes to an equal envelope. Non-trivial = mutant accepted by a decoder; distinct by wire text. Truncations and concatenations go through the stream decoder in mode c02stream."
+		e.Rep.Rule = "malformed stream: for ~44 seed encodings (hand-written ones reaching every decoder branch + generated ones) every single-point structural mutation at every node (delete member, replace by null / each wrong JSON type / degenerate media types / boundary and huge numbers, alien member, duplicate key, key case change, sub-tree swap) and sampled double-point mutations (every double in thorough) go through the real typed decoders and the real TCP receive path (in child processes, so that an input that kills the process is identified) and through the model; outcome class and accepted value are diffed; impl oracle = no panic / crash and accepted => re-encodes => decodes to an equal envelope. Non-trivial = mutant accepted by a decoder; distinct by wire text."
+		cases := []*c02Case{}
+		addCase := func(kind string, t codec.Tree, origin string) {
+			cases = append(cases, &c02Case{Kind: kind, Wire: string(codec.TreeBytes(t)), Origin: origin})
+		}
 		if e.Replay != "" {
 			b, err := readReplayCase(e.Replay)
 			if err != nil {
 				return err
 			}
-			var c struct {
-				Kind string `json:"kind"`
-				Wire string `json:"wire"`
-			}
+			var c c02Case
 			if err := json.Unmarshal(b, &c); err != nil {
 				return err
 			}
-			t, err := codec.ParseTree([]byte(c.Wire))
-			if err != nil {
-				return err
-			}
-			return decodeCase(e, c.Kind, t, "replay")
+			c.Origin = "replay"
+			return runDecodeCases(e, []*c02Case{&c})
 		}
 		// corpus of minimised past failures runs first
 		if files, _ := filepath.Glob("/verif/corpus/C02/*.json"); len(files) > 0 {
@@ -364,22 +490,14 @@ func init() {
 				if err != nil {
 					return err
 				}
-				var cs []struct {
-					Kind string `json:"kind"`
-					Wire string `json:"wire"`
-				}
+				var cs []c02Case
 				if err := json.Unmarshal(b, &cs); err != nil {
 					return fmt.Errorf("corpus %s: %w", f, err)
 				}
-				for i, c := range cs {
-					t, err := codec.ParseTree([]byte(c.Wire))
-					if err != nil {
-						return fmt.Errorf("corpus %s[%d]: %w", f, i, err)
-					}
+				for i := range cs {
+					cs[i].Origin = fmt.Sprintf("corpus %s[%d]", filepath.Base(f), i)
 					e.Rep.Count("corpus")
-					if err := decodeCase(e, c.Kind, t, fmt.Sprintf("corpus %s[%d]", filepath.Base(f), i)); err != nil {
-						return err
-					}
+					cases = append(cases, &cs[i])
 				}
 			}
 		}
@@ -387,9 +505,7 @@ func init() {
 		doubles := e.N(3000, 150000)
 		nSingles := 0
 		for si, seed := range seeds {
-			if err := decodeCase(e, kinds[si], seed, fmt.Sprintf("seed %d", si)); err != nil {
-				return err
-			}
+			addCase(kinds[si], seed, fmt.Sprintf("seed %d", si))
 			var ps []path
 			paths(seed, nil, &ps)
 			for _, p := range ps {
@@ -414,15 +530,12 @@ func init() {
 						}
 						e.Rep.Count(fmt.Sprintf("mutation=%d", k))
 						nSingles++
-						if err := decodeCase(e, kinds[si], m, fmt.Sprintf("seed %d mutation %d at %v variant %d", si, k, p, vv)); err != nil {
-							return err
-						}
+						addCase(kinds[si], m, fmt.Sprintf("seed %d mutation %d at %v variant %d", si, k, p, vv))
 					}
 				}
 			}
 		}
 		e.Rep.Extra["single_point_mutants"] = nSingles
-		// double-point mutations
 		for i := 0; i < doubles; i++ {
 			si := e.Rng.Intn(len(seeds))
 			var ps []path
@@ -444,11 +557,9 @@ func init() {
 				continue
 			}
 			e.Rep.Count("double")
-			if err := decodeCase(e, kinds[si], m2, fmt.Sprintf("seed %d double", si)); err != nil {
-				return err
-			}
+			addCase(kinds[si], m2, fmt.Sprintf("seed %d double", si))
 		}
 		e.Rep.Sample(map[string]interface{}{"seed_kind": kinds[0], "seed": string(codec.TreeBytes(seeds[0]))}, 3)
-		return nil
+		return runDecodeCases(e, cases)
 	})
 }
